@@ -89,3 +89,75 @@ class Determinism(PipelineBase):
             r,m=run.check_sat(z3.BoolVal(True))
             if r==z3.sat: rec['sample']={'scenario':mk(m),'expect':'ok' if v1=='ok' else 'err'}
         return rec
+
+class HistoryIndependence(PipelineBase):
+    """the verdict on inputs B is a function of B alone: verifying some other inputs A earlier in the same process (statics and
+    any other state that outlives a call are shared within a run) must not change the verdict or the summary for B"""
+    name='C13.history_independence'
+    def __init__(self,**kw):
+        PipelineBase.__init__(self,**kw)
+        self.bounds={'sequence':'run 1: in_toto_verify(B) in a fresh process; run 2: in_toto_verify(A) then in_toto_verify(B) in one process','A and B':'one step, two functionaries, threshold any u32, per functionary a link present/absent with free signature validity and free digests; A and B use different link directories and share the keys',
+                     'hash_map_iteration':'insertion order (order dependence is decided by the other obligations)'}
+        self.hash_order='fixed'
+        self.witnesses=['both_ok','both_err']
+    def setup(self,eng,tier):
+        PipelineBase.setup(self,eng,tier)
+        body=self.entry_body
+        def seq(run,args):
+            aA,aB1,aB2=args
+            def call(a):
+                try: return ('ret',eng.call_fn(run,body,a))
+                except Panic as p: return ('panic',p.site)
+            run.ghost.pop('statics',None)
+            r_alone=call(aB1)
+            run.ghost.pop('statics',None)           # a new process
+            call(aA)
+            r_after=call(aB2)
+            return (r_alone,r_after)
+        self.seq=seq
+    def entry(self,eng): return self.seq
+    def scenario(self,run,tag,first=True):
+        n=2; OWN=n
+        thr=Int(32,False,z3.BitVec('thr_'+tag,32)); files=[]
+        for i in range(n):
+            if run.pick(2,'file_%s_%d'%(tag,i)) if first else self._picks[(tag,i)]:
+                if first: self._picks[(tag,i)]=True
+                mb=z3.BitVec('mb_%s_%d'%(tag,i),8)
+                if first: run.add(z3.ULE(mb,n))
+                sd=SigD(i,mb,z3.Bool('in_%s_%d'%(tag,i)),z3.Bool('ov_%s_%d'%(tag,i)))
+                files.append(FileD('s0',i,BlockD('link',LinkD('s0',{'a':[z3.BitVec('dm_%s_%d'%(tag,i),8)]},{'p':[z3.BitVec('dp_%s_%d'%(tag,i),8)]}),[sd])))
+            elif first: self._picks[(tag,i)]=False
+        lay=LayoutD(list(range(n)),[StepD('s0',thr,list(range(n)))],readme=tag)
+        return BlockD('layout',lay,[SigD(OWN,OWN)]),[(OWN,OWN)],{():files}
+    def mk_args(self,run):
+        self._picks={}
+        A=self.scenario(run,'A'); B=self.scenario(run,'B')
+        self.link_dir='linksA'; aA=self.install(run,*A); dA=dict(run.ghost['dirs'])
+        self.link_dir='linksB'; aB1=self.install(run,*B); dB=dict(run.ghost['dirs'])
+        B2=self.scenario(run,'B',first=False); aB2=self.install(run,*B2)
+        run.ghost['dirs'].update(dA); run.ghost['dirs'].update(dB)
+        self.link_dir='links'
+        return (aA,aB1,aB2),{'A':A,'B':B}
+    def check(self,run,out,g):
+        r1,r2=out[1]
+        o1=outcome_of(r1); o2=outcome_of(r2); rec=self.new_rec(o1+'|'+o2); rec['obl']=1
+        v=lambda o: 'ok' if o=='ok' else ('panic' if o=='panic' else 'err')
+        def mk(m):
+            self.link_dir='links'
+            first=conc_scenario(m,g['A'][0],g['A'][1],g['A'][2],1700000000,repeat=1); second=conc_scenario(m,g['B'][0],g['B'][1],g['B'][2],1700000000,repeat=1)
+            return {'kind':'verify_sequence','first':first,'second':second,'sleep_ms':0,'also_alone':True}
+        if v(o1)!=v(o2):
+            r,m=run.check_sat(z3.BoolVal(True))
+            rec['viol']={'kind':'verdict_depends_on_earlier_verifications','known_key':None,'scenario':mk(m),'predicted':v(o2) if v(o2)!='err' else 'err','confirm':{'alone_differs':True},'what':'the same inputs are %s when verified in a fresh process and %s after another verification ran in the same process'%(v(o1),v(o2))}; return rec
+        if v(o1)=='ok':
+            l1=deref(self.b.get(deref(r1[1]).f[0],'metadata')).f[0]; l2=deref(self.b.get(deref(r2[1]).f[0],'metadata')).f[0]
+            same=b_and(val_eq(self.b.get(l1,'materials'),self.b.get(l2,'materials')),val_eq(self.b.get(l1,'products'),self.b.get(l2,'products')))
+            r,m=run.check_sat(z3.Not(same.z()))
+            if r==z3.sat:
+                rec['viol']={'kind':'summary_depends_on_earlier_verifications','known_key':None,'scenario':mk(m),'predicted':'ok','confirm':{'alone_differs':True},'what':'the summary for the same inputs differs after another verification ran in the same process'}; return rec
+            self.wit(run,rec,'both_ok')
+        else: self.wit(run,rec,'both_err')
+        if is_sample(run,self.seed,8):
+            r,m=run.check_sat(z3.BoolVal(True))
+            if r==z3.sat: rec['sample']={'scenario':mk(m),'expect':'ok' if v(o2)=='ok' else 'err','confirm':{'alone_differs':False}}
+        return rec
